@@ -1049,7 +1049,7 @@ class PDFType1Font(PDFSimpleFont):
             descriptor = dict_value(spec.get("FontDescriptor", {}))
             firstchar = int_value(spec.get("FirstChar", 0))
             # lastchar = int_value(spec.get('LastChar', 255))
-            width_list = list_value(spec.get("Widths", [0] * 256))
+            width_list = list_value(spec.get("Widths", []))
             widths = {i + firstchar: resolve1(w) for (i, w) in enumerate(width_list)}
         PDFSimpleFont.__init__(self, descriptor, widths, spec)
         if "Encoding" not in spec and "FontFile" in descriptor:
@@ -1073,7 +1073,7 @@ class PDFType3Font(PDFSimpleFont):
     def __init__(self, rsrcmgr: "PDFResourceManager", spec: Mapping[str, Any]) -> None:
         firstchar = int_value(spec.get("FirstChar", 0))
         # lastchar = int_value(spec.get('LastChar', 0))
-        width_list = list_value(spec.get("Widths", [0] * 256))
+        width_list = list_value(spec.get("Widths", []))
         widths: Dict[Union[str, int], float] = {
             i + firstchar: w for (i, w) in enumerate(width_list)
         }
